@@ -373,3 +373,20 @@ where
     }
     Ok(out)
 }
+
+/// The same named listing with some infosets split over two entries and the entries shuffled
+/// (legal for the importers: no restriction on order or repetition; entries of one infoset merge)
+pub fn split_named(rng: &mut crate::rng::Rng, named: Named) -> Named {
+    let mut out: Named = Vec::new();
+    for (info, acts) in named {
+        if acts.len() >= 2 && rng.chance(0.6) {
+            let cut = rng.range(1, acts.len() - 1);
+            out.push((info.clone(), acts[..cut].to_vec()));
+            out.push((info, acts[cut..].to_vec()));
+        } else {
+            out.push((info, acts));
+        }
+    }
+    rng.shuffle(&mut out);
+    out
+}
